@@ -60,7 +60,9 @@ inductive Flt where
   | fin (num : Int) (den : Nat)
 deriving Repr, BEq, DecidableEq
 
-/-- jq values as fq's Go code sees them. `int` is a Go `int` (64 bit; the harness only builds
+/-- jq values as fq's Go code sees them. (`shl l n` is only ever a RESULT: the big integer
+    l·2^n of a shift, left symbolic so that the driver need not build 256 MiB numbers.)
+     `int` is a Go `int` (64 bit; the harness only builds
     in-range ones and every model function that produces one wraps), `big` a `*big.Int` of any
     magnitude, `bin` an interp.Binary (length in bits, unit), `dv u` a decode value whose
     `JQValueToGoJQ` is the plain value `u`. -/
@@ -75,6 +77,7 @@ inductive JV where
   | obj (kv : List (String × JV))
   | bin (nbits : Nat) (unit : Int)
   | dv (under : JV)
+  | shl (l : Int) (n : Nat)      -- the *big.Int `l * 2^n`, kept symbolic (results of big.Int.Lsh only)
 deriving Repr, Inhabited
 
 def minInt64 : Int := -9223372036854775808
@@ -147,7 +150,7 @@ def resourceBits : Nat := 2 ^ 36
 def bigLsh (l : Int) (n : Nat) : Outcome JV :=
   if n > makeslicePanicBits then .panic "makeslice: len out of range"
   else if n > resourceBits then .resource "big.Int.Lsh allocates more than 8 GiB"
-  else .ok (.big (l * 2 ^ n))
+  else .ok (.shl l n)      -- denotes .big (l * 2 ^ n); not multiplied out (n may be 2^31-1)
 
 /-! ## gojq binopTypeSwitch (operator.go:311) -/
 
